@@ -21,6 +21,10 @@
 #include "common.hpp"
 
 #include <amc/memory.hpp>
+#include <amc/fixedcapacityvector.hpp>
+#include <amc/smallvector.hpp>
+#include <amc/vector.hpp>
+#include <initializer_list>
 
 namespace vf {
 // element whose MOVE constructor can throw (not relocatable, not trivially copyable)
@@ -948,9 +952,40 @@ void allForGroup() {
 }
 #endif
 
+// construct_at (and emplace / emplace_back of the containers, which go through it) must build T(args...) - with
+// parentheses, as std::construct_at and std::vector do - whatever the language standard: a type with both a (int, int) and an
+// initializer_list constructor tells the two apart.  Only a mismatch prints a line (reported by the check as it stands).
+struct ParenOrBrace {
+  long tag;
+  ParenOrBrace(int a, int b) : tag(100L * a + b) {}
+  ParenOrBrace(std::initializer_list<int> l) : tag(-1) {
+    for (int x : l) tag -= x;
+  }
+};
+static void probeArgumentForwarding() {
+  const long want = ParenOrBrace(2, 7).tag;
+  alignas(ParenOrBrace) unsigned char buf[sizeof(ParenOrBrace)];
+  ParenOrBrace *p = amc::construct_at(reinterpret_cast<ParenOrBrace *>(buf), 2, 7);
+  if (p->tag != want) std::printf("ARGFWD amc::construct_at(p, 2, 7) built tag %ld, T(2, 7) has tag %ld (cplusplus=%ld)\n", p->tag, want, static_cast<long>(__cplusplus));
+  amc::vector<ParenOrBrace> v;
+  v.emplace_back(2, 7);
+  v.emplace(v.begin(), 2, 7);
+  amc::SmallVector<ParenOrBrace, 2> sv;
+  sv.emplace_back(2, 7);
+  amc::FixedCapacityVector<ParenOrBrace, 2> fcv;
+  fcv.emplace_back(2, 7);
+  fcv.emplace(fcv.begin(), 2, 7);
+  if (v[0].tag != want || v[1].tag != want || sv[0].tag != want || fcv[0].tag != want || fcv[1].tag != want)
+    std::printf("ARGFWD emplace / emplace_back(2, 7) built tags %ld %ld %ld %ld %ld, T(2, 7) has tag %ld (cplusplus=%ld)\n", v[0].tag, v[1].tag, sv[0].tag,
+                fcv[0].tag, fcv[1].tag, want, static_cast<long>(__cplusplus));
+}
+
 int main(int argc, char **argv) {
   if (argc > 1) gMaxN = std::atoi(argv[1]);
   std::printf("MEMDRV cplusplus=%ld maxn=%d\n", static_cast<long>(__cplusplus), gMaxN);
+#if !defined(GROUP) || GROUP == 0
+  probeArgumentForwarding();
+#endif
 #ifdef GROUP
 #if GROUP / 4 == 0
   allForGroup<vf::El<0> >();
